@@ -208,8 +208,12 @@ func parseHeaders(h *protocol.ResponseHeader, buf []byte) (int, error) {
 	if h.ContentLength() < 0 {
 		h.SetContentLengthBytes(h.ContentLengthBytes()[:0])
 	}
-	if h.ContentLength() == -2 && !ConnectionUpgrade(h) && !h.MustSkipContentLength() {
-		h.SetArgBytes(bytestr.StrTransferEncoding, bytestr.StrIdentity, protocol.ArgsHasValue)
+	if h.ContentLength() == -2 && !h.MustSkipContentLength() {
+		// (a body that ends where the connection ends leaves nothing to reuse, whether
+		// or not the server advertises an upgrade next to it)
+		if !ConnectionUpgrade(h) {
+			h.SetArgBytes(bytestr.StrTransferEncoding, bytestr.StrIdentity, protocol.ArgsHasValue)
+		}
 		h.SetConnectionClose(true)
 	}
 	if !h.IsHTTP11() && !h.ConnectionClose() {
